@@ -1,1 +1,394 @@
-// harness module (child of the mirrored module)
+// Contracts and proof harnesses for contracts/interchain-token/src/contract.rs (every entry point).
+use super::*;
+use soroban_sdk::shim::{self, inst, pers, temp, Wordy, Words, OWNER_KEY};
+use soroban_sdk::{symbol_short, Symbol};
+
+type T = InterchainToken;
+
+fn addr() -> Address {
+    Address::symbolic()
+}
+fn bal_key(a: &Address) -> DataKey {
+    DataKey::Balance(a.clone())
+}
+fn allow_key(from: &Address, spender: &Address) -> DataKey {
+    DataKey::Allowance(AllowanceDataKey { from: from.clone(), spender: spender.clone() })
+}
+/// pre-state balance (absent = 0); the token invariant "no balance is negative" is assumed here
+/// and asserted again after every operation
+fn bal_pre(a: &Address) -> i128 {
+    let b = pers().pre::<_, i128>(&bal_key(a)).unwrap_or(0);
+    kani::assume(b >= 0);
+    b
+}
+fn bal_post(a: &Address) -> i128 {
+    pers().post::<_, i128>(&bal_key(a)).unwrap_or(0)
+}
+/// pre-state allowance record (absent = (0, 0)); invariant "no allowance is negative"
+fn allow_pre(from: &Address, spender: &Address) -> (i128, u32) {
+    match temp().pre::<_, AllowanceValue>(&allow_key(from, spender)) {
+        Some(a) => {
+            kani::assume(a.amount >= 0);
+            (a.amount, a.expiration_ledger)
+        }
+        None => (0, 0),
+    }
+}
+fn allow_post(from: &Address, spender: &Address) -> (i128, u32) {
+    match temp().post::<_, AllowanceValue>(&allow_key(from, spender)) {
+        Some(a) => (a.amount, a.expiration_ledger),
+        None => (0, 0),
+    }
+}
+/// usable amount: the whole allowance up to and including its expiration ledger, nothing afterwards
+fn usable((amount, exp): (i128, u32)) -> i128 {
+    if exp < shim::host().sequence {
+        0
+    } else {
+        amount
+    }
+}
+
+// ------------------------------------------------------------------------------------------------ transfer
+#[kani::proof]
+fn c12_transfer() {
+    let env = Env::default();
+    let _h = shim::fresh_host();
+    let (from, to) = (addr(), addr());
+    let amount: i128 = kani::any();
+    let (bf0, bt0) = (bal_pre(&from), bal_pre(&to));
+
+    <T as token::Interface>::transfer(env.clone(), from.clone(), to.clone(), amount);
+
+    assert!(shim::authed(&from), "OBL C07.transfer_needs_from: a transfer debits `from` only under `from`'s own authorisation");
+    assert!(amount >= 0, "OBL C12.transfer_rejects_negative");
+    assert!(bf0 >= amount, "OBL C12.transfer_needs_balance");
+    if from != to {
+        assert!(bal_post(&from) == bf0 - amount && bal_post(&to) == bt0.wrapping_add(amount), "OBL C12.transfer_moves_exact_amount: exactly `amount` leaves one balance and enters the other");
+    } else {
+        assert!(bal_post(&from) == bf0, "OBL C12.self_transfer_neutral");
+    }
+    assert!(bal_post(&from) >= 0 && bal_post(&to) >= 0, "OBL C12.balances_stay_nonnegative");
+    assert!(
+        pers().changed_only(&[Words::of(&bal_key(&from)), Words::of(&bal_key(&to))]) && inst().n_changed() == 0 && temp().n_changed() == 0 && shim::n_calls() == 0,
+        "OBL C12.transfer_frame: no other balance, allowance or setting changes (total supply unchanged)"
+    );
+    assert!(shim::n_events() == 1 && shim::event_is(0, &(symbol_short!("transfer"), from.clone(), to.clone()), &amount), "OBL C12.transfer_event: one standard transfer event naming the true parties and amount");
+    kani::cover!(from != to && amount > 0, "COVER c12_transfer moved");
+    kani::cover!(from == to, "COVER c12_transfer self");
+}
+
+#[kani::proof]
+fn c12_transfer_notrap() {
+    let env = Env::default();
+    let _h = shim::fresh_host();
+    let (from, to) = (addr(), addr());
+    let amount: i128 = kani::any();
+    let (bf0, bt0) = (bal_pre(&from), bal_pre(&to));
+    // honest call: authorised, non-negative, covered by the balance, recipient balance does not overflow
+    kani::assume(shim::auth_granted(from.0) && amount >= 0 && bf0 >= amount && bt0.checked_add(amount).is_some());
+    shim::set_no_trap_mode();
+    <T as token::Interface>::transfer(env.clone(), from.clone(), to.clone(), amount);
+    assert!(true, "OBL C12.transfer_accepts_honest_call: reached the end without a trap");
+    kani::cover!(true, "COVER c12_transfer_notrap returned");
+}
+
+// ------------------------------------------------------------------------------------------------ approve / allowance
+#[kani::proof]
+fn c12_approve() {
+    let env = Env::default();
+    let h = shim::fresh_host();
+    let seq = h.sequence;
+    let (from, spender) = (addr(), addr());
+    let amount: i128 = kani::any();
+    let exp: u32 = kani::any();
+
+    <T as token::Interface>::approve(env.clone(), from.clone(), spender.clone(), amount, exp);
+
+    assert!(shim::authed(&from), "OBL C07.approve_needs_from: an allowance over `from`'s funds is granted only under `from`'s authorisation");
+    assert!(amount >= 0, "OBL C12.approve_rejects_negative");
+    assert!(!(amount > 0 && exp < seq), "OBL C12.approve_rejects_past_expiration");
+    assert!(allow_post(&from, &spender) == (amount, exp), "OBL C12.approve_stores_exact");
+    assert!(temp().changed_only(&[Words::of(&allow_key(&from, &spender))]) && pers().n_changed() == 0 && inst().n_changed() == 0, "OBL C12.approve_frame: only the allowance of exactly (from, spender) changes");
+    assert!(shim::n_events() == 1 && shim::event_is(0, &(Symbol::new(&env, "approve"), from.clone(), spender.clone()), &(amount, exp)), "OBL C12.approve_event");
+    kani::cover!(amount > 0 && exp == seq, "COVER c12_approve expiring this ledger");
+}
+
+#[kani::proof]
+fn c12_allowance_query() {
+    let env = Env::default();
+    let _h = shim::fresh_host();
+    let (from, spender) = (addr(), addr());
+    let a0 = allow_pre(&from, &spender);
+    let r = <T as token::Interface>::allowance(env.clone(), from.clone(), spender.clone());
+    assert!(r == usable(a0), "OBL C12.allowance_expiry: an allowance reads as granted up to and including its expiration ledger and as zero afterwards");
+    assert!(shim::no_effects() && shim::n_auth() == 0, "OBL C12.allowance_query_pure");
+    kani::cover!(a0.0 > 0 && a0.1 == shim::host().sequence && r > 0, "COVER c12_allowance usable on the expiration ledger");
+    kani::cover!(a0.0 > 0 && a0.1.wrapping_add(1) == shim::host().sequence && a0.1 < u32::MAX && r == 0, "COVER c12_allowance worthless one ledger later");
+}
+
+#[kani::proof]
+fn c12_balance_query() {
+    let env = Env::default();
+    let _h = shim::fresh_host();
+    let a = addr();
+    let b0 = pers().pre::<_, i128>(&bal_key(&a)).unwrap_or(0);
+    let r = <T as token::Interface>::balance(env.clone(), a.clone());
+    assert!(r == b0, "OBL C12.balance_query_agrees");
+    assert!(shim::no_effects() && shim::n_auth() == 0, "OBL C12.balance_query_pure");
+    kani::cover!(r != 0, "COVER c12_balance nonzero");
+}
+
+// ------------------------------------------------------------------------------------------------ transfer_from / burn / burn_from
+#[kani::proof]
+fn c12_transfer_from() {
+    let env = Env::default();
+    let _h = shim::fresh_host();
+    let (spender, from, to) = (addr(), addr(), addr());
+    let amount: i128 = kani::any();
+    let (bf0, bt0) = (bal_pre(&from), bal_pre(&to));
+    let a0 = allow_pre(&from, &spender);
+
+    <T as token::Interface>::transfer_from(env.clone(), spender.clone(), from.clone(), to.clone(), amount);
+
+    assert!(shim::authed(&spender), "OBL C07.transfer_from_needs_spender: a delegated transfer needs the spender's own authorisation");
+    assert!(amount >= 0, "OBL C12.transfer_from_rejects_negative");
+    assert!(usable(a0) >= amount, "OBL C12.transfer_from_needs_live_allowance: the allowance of exactly (from, spender) must cover the amount and not be expired");
+    assert!(bf0 >= amount, "OBL C12.transfer_from_needs_balance");
+    assert!(
+        if amount > 0 { allow_post(&from, &spender) == (a0.0 - amount, a0.1) } else { !temp().changed(&allow_key(&from, &spender)) },
+        "OBL C12.transfer_from_spends_allowance_exactly: the allowance drops by exactly the amount spent, its expiration is kept"
+    );
+    if from != to {
+        assert!(bal_post(&from) == bf0 - amount && bal_post(&to) == bt0.wrapping_add(amount), "OBL C12.transfer_from_moves_exact_amount: the debit is against `from`, the credit goes to `to`");
+    } else {
+        assert!(bal_post(&from) == bf0, "OBL C12.transfer_from_self_neutral");
+    }
+    assert!(bal_post(&from) >= 0 && bal_post(&to) >= 0 && allow_post(&from, &spender).0 >= 0, "OBL C12.transfer_from_nonnegative");
+    assert!(
+        pers().changed_only(&[Words::of(&bal_key(&from)), Words::of(&bal_key(&to))]) && temp().changed_only(&[Words::of(&allow_key(&from, &spender))]) && inst().n_changed() == 0,
+        "OBL C12.transfer_from_frame"
+    );
+    assert!(shim::n_events() == 1 && shim::event_is(0, &(symbol_short!("transfer"), from.clone(), to.clone()), &amount), "OBL C12.transfer_from_event");
+    kani::cover!(amount > 0 && from != to && a0.1 == shim::host().sequence, "COVER c12_transfer_from on expiration ledger");
+    kani::cover!(amount == 0, "COVER c12_transfer_from zero");
+}
+
+#[kani::proof]
+fn c12_transfer_from_notrap() {
+    let env = Env::default();
+    let _h = shim::fresh_host();
+    let (spender, from, to) = (addr(), addr(), addr());
+    let amount: i128 = kani::any();
+    let (bf0, bt0) = (bal_pre(&from), bal_pre(&to));
+    let a0 = allow_pre(&from, &spender);
+    kani::assume(shim::auth_granted(spender.0) && amount >= 0 && bf0 >= amount && bt0.checked_add(amount).is_some() && usable(a0) >= amount);
+    shim::set_no_trap_mode();
+    <T as token::Interface>::transfer_from(env.clone(), spender.clone(), from.clone(), to.clone(), amount);
+    assert!(true, "OBL C12.transfer_from_accepts_live_allowance: a sufficient, unexpired allowance (also on its expiration ledger) is honoured");
+    kani::cover!(amount > 0 && a0.1 == shim::host().sequence, "COVER c12_transfer_from_notrap on expiration ledger");
+}
+
+#[kani::proof]
+fn c12_burn() {
+    let env = Env::default();
+    let _h = shim::fresh_host();
+    let from = addr();
+    let amount: i128 = kani::any();
+    let bf0 = bal_pre(&from);
+
+    <T as token::Interface>::burn(env.clone(), from.clone(), amount);
+
+    assert!(shim::authed(&from), "OBL C07.burn_needs_from: tokens are burned only under their holder's authorisation");
+    assert!(amount >= 0 && bf0 >= amount, "OBL C12.burn_needs_balance");
+    assert!(bal_post(&from) == bf0 - amount && bal_post(&from) >= 0, "OBL C12.burn_removes_exact_amount: one balance (and hence the supply) drops by exactly the amount");
+    assert!(pers().changed_only(&[Words::of(&bal_key(&from))]) && inst().n_changed() == 0 && temp().n_changed() == 0 && shim::n_calls() == 0, "OBL C12.burn_frame");
+    assert!(shim::n_events() == 1 && shim::event_is(0, &(symbol_short!("burn"), from.clone()), &amount), "OBL C12.burn_event");
+    kani::cover!(amount > 0, "COVER c12_burn positive");
+}
+
+#[kani::proof]
+fn c12_burn_from() {
+    let env = Env::default();
+    let _h = shim::fresh_host();
+    let (spender, from) = (addr(), addr());
+    let amount: i128 = kani::any();
+    let bf0 = bal_pre(&from);
+    let a0 = allow_pre(&from, &spender);
+
+    <T as token::Interface>::burn_from(env.clone(), spender.clone(), from.clone(), amount);
+
+    assert!(shim::authed(&spender), "OBL C07.burn_from_needs_spender");
+    assert!(amount >= 0 && bf0 >= amount, "OBL C12.burn_from_needs_balance");
+    assert!(usable(a0) >= amount, "OBL C12.burn_from_needs_live_allowance");
+    assert!(
+        if amount > 0 { allow_post(&from, &spender) == (a0.0 - amount, a0.1) } else { !temp().changed(&allow_key(&from, &spender)) },
+        "OBL C12.burn_from_spends_allowance_exactly"
+    );
+    assert!(bal_post(&from) == bf0 - amount && bal_post(&from) >= 0, "OBL C12.burn_from_removes_exact_amount: the debit is against `from`");
+    assert!(
+        pers().changed_only(&[Words::of(&bal_key(&from))]) && temp().changed_only(&[Words::of(&allow_key(&from, &spender))]) && inst().n_changed() == 0,
+        "OBL C12.burn_from_frame"
+    );
+    assert!(shim::n_events() == 1 && shim::event_is(0, &(symbol_short!("burn"), from.clone()), &amount), "OBL C12.burn_from_event");
+    kani::cover!(amount > 0, "COVER c12_burn_from positive");
+}
+
+// ------------------------------------------------------------------------------------------------ minting
+#[kani::proof]
+fn c12_mint_from() {
+    let env = Env::default();
+    let _h = shim::fresh_host();
+    let (minter, to) = (addr(), addr());
+    let amount: i128 = kani::any();
+    let bt0 = bal_pre(&to);
+
+    let r = <T as InterchainTokenInterface>::mint_from(&env, minter.clone(), to.clone(), amount);
+
+    let was_minter = inst().pre_has(&DataKey::Minter(minter.clone()));
+    assert!(shim::authed(&minter), "OBL C07.mint_from_needs_minter: minting in a minter's name needs that minter's own authorisation");
+    match r {
+        Ok(()) => {
+            assert!(was_minter, "OBL C12.only_current_minters_mint: the address must hold the minter role at the time of the call");
+            assert!(amount >= 0, "OBL C12.mint_rejects_negative");
+            assert!(bal_post(&to) == bt0.wrapping_add(amount) && bal_post(&to) >= 0, "OBL C12.mint_adds_exact_amount: one balance (and hence the supply) grows by exactly the amount");
+            assert!(pers().changed_only(&[Words::of(&bal_key(&to))]) && inst().n_changed() == 0 && temp().n_changed() == 0 && shim::n_calls() == 0, "OBL C12.mint_frame");
+            assert!(shim::n_events() == 1 && shim::event_is(0, &(symbol_short!("mint"), minter.clone(), to.clone()), &amount), "OBL C12.mint_event");
+            kani::cover!(amount > 0, "COVER c12_mint_from ok");
+        }
+        Err(e) => {
+            assert!(!was_minter && e == ContractError::NotMinter, "OBL C12.mint_err_only_for_non_minter");
+            assert!(shim::no_effects(), "OBL C12.refused_mint_no_effect");
+            kani::cover!(true, "COVER c12_mint_from err");
+        }
+    }
+}
+
+#[kani::proof]
+fn c12_owner_mint() {
+    let env = Env::default();
+    let _h = shim::fresh_host();
+    let to = addr();
+    let amount: i128 = kani::any();
+    let bt0 = bal_pre(&to);
+
+    <T as StellarAssetInterface>::mint(env.clone(), to.clone(), amount);
+
+    let owner: Option<Address> = inst().pre(&OWNER_KEY);
+    assert!(matches!(&owner, Some(o) if shim::authed(o)), "OBL C06.owner_mint_needs_owner: owner minting needs the authorisation of the owner stored at entry");
+    assert!(matches!(&owner, Some(o) if inst().pre_has(&DataKey::Minter(o.clone()))), "OBL C12.owner_mint_needs_minter_role");
+    assert!(amount >= 0 && bal_post(&to) == bt0.wrapping_add(amount), "OBL C12.owner_mint_adds_exact_amount");
+    assert!(pers().changed_only(&[Words::of(&bal_key(&to))]) && inst().n_changed() == 0 && temp().n_changed() == 0, "OBL C12.owner_mint_frame");
+    let o = owner.unwrap_or(Address(0));
+    assert!(shim::n_events() == 1 && shim::event_is(0, &(symbol_short!("mint"), o, to.clone()), &amount), "OBL C12.owner_mint_event");
+    kani::cover!(amount > 0, "COVER c12_owner_mint ok");
+}
+
+#[kani::proof]
+fn c06_token_add_minter() {
+    let env = Env::default();
+    let _h = shim::fresh_host();
+    let m = addr();
+    <T as InterchainTokenInterface>::add_minter(&env, m.clone());
+    let owner: Option<Address> = inst().pre(&OWNER_KEY);
+    assert!(matches!(&owner, Some(o) if shim::authed(o)), "OBL C06.add_minter_needs_owner");
+    assert!(matches!(&owner, Some(o) if shim::auth_seq(o) < inst().first_write_seq()), "OBL C06.add_minter_auth_first");
+    assert!(inst().post_has(&DataKey::Minter(m.clone())), "OBL C06.add_minter_grants_role");
+    assert!(inst().changed_only(&[Words::of(&DataKey::Minter(m.clone()))]) && pers().n_changed() == 0 && temp().n_changed() == 0, "OBL C06.add_minter_frame");
+    assert!(shim::n_events() == 1 && shim::event_is(0, &(Symbol::new(&env, "minter_added"), m.clone()), &()), "OBL C06.add_minter_event");
+    kani::cover!(true, "COVER add_minter returned");
+}
+
+#[kani::proof]
+fn c06_token_remove_minter() {
+    let env = Env::default();
+    let _h = shim::fresh_host();
+    let m = addr();
+    <T as InterchainTokenInterface>::remove_minter(&env, m.clone());
+    let owner: Option<Address> = inst().pre(&OWNER_KEY);
+    assert!(matches!(&owner, Some(o) if shim::authed(o)), "OBL C06.remove_minter_needs_owner");
+    assert!(matches!(&owner, Some(o) if shim::auth_seq(o) < inst().first_write_seq()), "OBL C06.remove_minter_auth_first");
+    assert!(!inst().post_has(&DataKey::Minter(m.clone())), "OBL C06.remove_minter_revokes_role");
+    assert!(inst().changed_only(&[Words::of(&DataKey::Minter(m.clone()))]) && pers().n_changed() == 0 && temp().n_changed() == 0, "OBL C06.remove_minter_frame");
+    assert!(shim::n_events() == 1 && shim::event_is(0, &(Symbol::new(&env, "minter_removed"), m.clone()), &()), "OBL C06.remove_minter_event");
+    kani::cover!(true, "COVER remove_minter returned");
+}
+
+// ------------------------------------------------------------------------------------------------ administrator change
+soroban_sdk::harness_ownable!(InterchainToken, c06_token_transfer_ownership);
+
+fn admin_change(via_set_admin: bool) {
+    let env = Env::default();
+    let _h = shim::fresh_host();
+    let new_owner = addr();
+    if via_set_admin {
+        <T as StellarAssetInterface>::set_admin(env.clone(), new_owner.clone());
+    } else {
+        <T as OwnableInterface>::transfer_ownership(&env, new_owner.clone());
+    }
+    let prev: Option<Address> = inst().pre(&OWNER_KEY);
+    assert!(matches!(&prev, Some(p) if shim::authed(p)), "OBL C06.set_admin_needs_owner");
+    assert!(inst().post::<_, Address>(&OWNER_KEY) == Some(new_owner.clone()), "OBL C06.set_admin_successor_exact");
+    let p = prev.unwrap_or(Address(0));
+    assert!(
+        shim::n_events() == 2 && shim::event_is(1, &(symbol_short!("set_admin"), p), &new_owner),
+        "OBL C12.set_admin_event: the standard administrator-change event names the previous administrator (topic) and the new one (data)"
+    );
+    kani::cover!(true, "COVER admin change returned");
+}
+#[kani::proof]
+fn c12_set_admin() {
+    admin_change(true)
+}
+#[kani::proof]
+fn c12_transfer_ownership_event() {
+    admin_change(false)
+}
+
+soroban_sdk::harness_upgradable!(InterchainToken, ContractError, c15_token_upgrade, c15_token_migrate);
+
+// ------------------------------------------------------------------------------------------------ constructor and read-only views (C11)
+#[kani::proof]
+fn c11_token_constructor() {
+    let env = Env::default();
+    let _h = shim::fresh_host();
+    let owner = addr();
+    let minter: Option<Address> = Option::<Address>::symbolic();
+    let token_id: BytesN<32> = BytesN::symbolic();
+    let md = TokenMetadata { decimal: kani::any(), name: String::symbolic(), symbol: String::symbolic() };
+
+    T::__constructor(env.clone(), owner.clone(), minter.clone(), token_id, md.clone());
+
+    assert!(md.decimal <= 255 && !md.name.is_empty() && !md.symbol.is_empty(), "OBL C11.token_ctor_validates_metadata");
+    assert!(inst().post::<_, Address>(&OWNER_KEY) == Some(owner.clone()), "OBL C11.token_owned_by_deployer_arg: the token is owned by the address passed as owner (the service)");
+    assert!(inst().post::<_, BytesN<32>>(&DataKey::TokenId) == Some(token_id), "OBL C11.token_reports_id");
+    let stored: Option<TokenMetadata> = inst().post(&shim::UnitKey("METADATA"));
+    assert!(matches!(&stored, Some(s) if s.decimal == md.decimal && s.name == md.name && s.symbol == md.symbol), "OBL C11.token_reports_metadata");
+    assert!(inst().post_has(&DataKey::Minter(owner.clone())), "OBL C11.owner_is_minter: the owner (the service) can mint for inbound transfers");
+    assert!(match &minter { Some(m) => inst().post_has(&DataKey::Minter(m.clone())), None => true }, "OBL C11.designated_minter_is_minter");
+    let mut allowed = [Words::of(&OWNER_KEY), Words::of(&DataKey::TokenId), Words::of(&shim::UnitKey("METADATA")), Words::of(&DataKey::Minter(owner.clone())), Words::of(&DataKey::Minter(owner.clone()))];
+    if let Some(m) = &minter {
+        allowed[4] = Words::of(&DataKey::Minter(m.clone()));
+    }
+    assert!(inst().changed_only(&allowed) && pers().n_changed() == 0 && temp().n_changed() == 0, "OBL C11.minting_rights_to_service_and_designated_minter_only: no other role, balance or setting is written");
+    kani::cover!(minter.is_some(), "COVER token ctor with minter");
+    kani::cover!(minter.is_none(), "COVER token ctor without minter");
+}
+
+#[kani::proof]
+fn c11_token_views() {
+    let env = Env::default();
+    let _h = shim::fresh_host();
+    let a = addr();
+    let id = <T as InterchainTokenInterface>::token_id(&env);
+    let im = <T as InterchainTokenInterface>::is_minter(&env, a.clone());
+    let dec = <T as token::Interface>::decimals(env.clone());
+    let name = <T as token::Interface>::name(env.clone());
+    let sym = <T as token::Interface>::symbol(env.clone());
+    let md: Option<TokenMetadata> = inst().pre(&shim::UnitKey("METADATA"));
+    assert!(inst().pre::<_, BytesN<32>>(&DataKey::TokenId) == Some(id), "OBL C11.view_token_id");
+    assert!(im == inst().pre_has(&DataKey::Minter(a.clone())), "OBL C11.view_is_minter");
+    assert!(matches!(&md, Some(m) if m.decimal == dec && m.name == name && m.symbol == sym), "OBL C11.view_metadata");
+    assert!(shim::no_effects() && shim::n_auth() == 0, "OBL C11.views_pure");
+    kani::cover!(im, "COVER token views minter");
+}
